@@ -145,6 +145,7 @@ typedef struct {
 	size_t out_limit;         // stop after this many output bytes (0 = unlimited)
 	uint64_t max_calls;       // safety bound (0 = automatic)
 	bool timeout_coder;       // coder has a time-out: repeated empty LZMA_OK is legal
+	bool continue_informational; // go on after LZMA_NO_CHECK / UNSUPPORTED_CHECK / GET_CHECK (counted in res)
 } slice_plan;
 
 typedef struct {
@@ -157,6 +158,7 @@ typedef struct {
 	char why[200];
 	bool hit_call_limit;
 	bool out_limit_hit;
+	unsigned informational;   // NO_CHECK / UNSUPPORTED_CHECK / GET_CHECK returns passed over
 	double max_call_cpu_s;
 } slice_result;
 
